@@ -42,7 +42,7 @@ ASSUMPTIONS = [
     "EZSP_CMD_TIMEOUT is read from the tree",
 ]
 REACH = {t: ["beh_now", "beh_delay", "beh_late", "beh_never", "beh_twice", "beh_cb_before", "beh_cb_after",
-             "beh_foreign", "beh_sendfail", "cancel_queued", "cancel_sending", "cancel_waiting",
+             "beh_foreign", "beh_sendfail", "cancel_queued", "cancel_sending", "cancel_waiting", "cancel_handover", "cancelled_send_went_out_all_the_same",
              "three_classes_queued", "sequence_wrap", "unsolicited_to_two_callbacks", "priority_overtake", "commands_in_second_session",
              "timeout_observed", "probe_ok"] for t in ("quick", "thorough")}
 SHARD_TIMEOUT = {"quick": 900, "thorough": 3600}
@@ -93,11 +93,23 @@ def run_case(case, V, acc=None):
         def deliver(frame, tag, seq, cid, values):
             tr.append(("frame", clock(), tag, seq, cid, values))
             ez.frame_received(frame)
+            # "handover" cancellations: a caller still queued is cancelled 0..3 loop iterations after a frame was
+            # processed - i.e. around the instant the command ahead of it ends and the slot changes hands
+            for i_, sp_ in specs.items():
+                if sp_.get("cancel") == "handover" and sp_.get("called") and "seq" not in sp_ and not sp_.get("armed"):
+                    sp_["armed"] = True
+                    hop(sp_.get("hops", 1), i_)
+
+        def hop(k, i):
+            if k <= 0:
+                do_cancel(i)
+            else:
+                loop.call_soon(hop, k - 1, i)
 
         class Ncp:
-            def on_request(self, data):
+            def on_request(self, data, i=None):
                 seq, cid, body = X.parse_request(V, data)
-                i = current[0]
+                i = current[0] if i is None else i
                 sp = specs[i]
                 name = sp["name"]
                 beh = sp["beh"]
@@ -170,6 +182,11 @@ def run_case(case, V, acc=None):
                     raise LinkDown("link-level send failure")
             except BaseException as ex:
                 tr.append(("send_fail", clock(), i, family(ex)))
+                if isinstance(ex, asyncio.CancelledError) and i is not None and specs[i].get("frame_goes_out"):
+                    # the link layer's send is shielded from its caller: the frame goes out all the same, the NCP
+                    # executes the command and answers under a sequence number nobody waits for any more
+                    tr.append(("send_end", clock(), i))
+                    loop.io_at(clock() + SEND_LATENCY / 2, ncp.on_request, bytes(data), i)
                 raise
             tr.append(("send_end", clock(), i))
             if i is not None and specs[i].get("cancel") == "waiting":
@@ -199,6 +216,7 @@ def run_case(case, V, acc=None):
             if sp["offset"]:
                 await asyncio.sleep(sp["offset"])
             tr.append(("call", clock(), i, sp["name"], sp["cls"]))
+            sp["called"] = True
             if sp.get("cancel") == "queued":
                 loop.io_at(clock() + 0.01, do_cancel, i)
             try:
@@ -454,6 +472,8 @@ def run_one(acc, case, V):
             ph = case["callers"][ev[2]].get("cancel")
             if ph:
                 acc.hit("cancel_" + ph)
+            if ph == "sending" and any(e2[0] == "frame" and e2[2][0] in ("reply", "dup") and e2[2][1] == ev[2] for e2 in tr):
+                acc.hit("cancelled_send_went_out_all_the_same")
         acc.ev(ev[0])
     overl = sum(1 for ev in tr if ev[0] == "send_begin" and ev[2] is not None) >= 2
     if overl or any(c["beh"] != "now" for c in case["callers"]):
@@ -482,10 +502,21 @@ def gen_cases(tier, seed, V):
             pool = CLASSES[c] + [x for x in EXTRA[c] if x in cmds]
             callers.append(dict(cls=c, name=rnd.choice(pool), beh=rnd.choice(BEHAVIOURS + ["now", "now", "delay"]),
                                 offset=rnd.choice([0.0, 0.0, 0.0, 0.1, 0.25, 0.7, 5.0]),
-                                cancel=rnd.choice([None, None, None, "queued", "sending", "waiting"])))
+                                cancel=rnd.choice([None, None, None, "queued", "sending", "waiting", "handover"]),
+                                hops=rnd.randrange(0, 4), frame_goes_out=rnd.random() < 0.5))
         cases.append({"callers": callers, "seed": rnd.randrange(10 ** 6)})
         if _ % 12 == 0:
             cases[-1]["restart"] = True
+    # the slot changes hands: A in flight, B queued behind it and cancelled 0..3 loop iterations after A's reply was
+    # processed, C (and the probe at the end) must still be served
+    for h in range(0, 4):
+        for ca in clsn:
+            for cb in clsn:
+                for beh_a in ("now", "delay", "twice", "cb_after"):
+                    callers = [dict(cls=ca, name=CLASSES[ca][0], beh=beh_a, offset=0.0),
+                               dict(cls=cb, name=CLASSES[cb][1], beh="now", offset=0.0, cancel="handover", hops=h),
+                               dict(cls=clsn[(h + 1) % 3], name=CLASSES[clsn[(h + 1) % 3]][2], beh="now", offset=0.0)]
+                    cases.append({"callers": callers, "seed": seed + h})
     # sequence wrap: many commands through 3 classes
     for w in range(1 if tier == "quick" else 4):
         callers = []
